@@ -971,8 +971,10 @@ class Globals:
                     for idx, (et, ev) in enumerate(v[1]):
                         tgt = ev
                         while tgt[0] == 'ccast': tgt = tgt[3]
-                        if tgt[0] == 'glob' and tgt[1] in s.m.funcs:
-                            s.vt_slots.setdefault(idx, set()).add(tgt[1])
+                        if tgt[0] == 'glob':
+                            n_ = tgt[1]; g_ = s.m.globals.get(n_)
+                            if g_ and 'alias' in g_ and g_['alias'][0] == 'glob': n_ = g_['alias'][1]   # complete-object dtors are aliases
+                            if n_ in s.m.funcs: s.vt_slots.setdefault(idx, set()).add(n_)
                 return '{ {' + ','.join(s.init(et, ev, fe) for (et, ev) in v[1]) + '} }'
             if not v[1]: return '{}'
             return '{' + ','.join(s.init(et, ev, fe) for (et, ev) in v[1]) + '}'
